@@ -174,6 +174,24 @@ def run(ctx):
             ids, tr = registered(s, xp)
             r2.check(em <= ids, f"{cname}[{desc}]", "every emitted itext id is registered", "pyxform/section.py", why_fail=f"emitted {sorted(em)} registered {sorted(ids)}")
     ctx.count("decision_table_evaluations", n_eval)
+    # the ids are built from the element's path: an element NAME that contains one of the display-element words
+    # (`guidance_hint`, `hint`, `label`) must not change which id is emitted or registered
+    for nm in ("my_guidance_hint_q", "hint", "label_of_x"):
+        for (ln, lv), (hn, hv), (gn, gv) in itertools.product([("text", "Name"), ("dict", {"en": "Name", "fr": "Nom"})], [("absent", None), ("text", "A hint"), ("dict", {"en": "Hint"})],
+                                                              [("absent", None), ("text", "Guide"), ("dict", {"en": "G"})]):
+            desc = f"element named {nm!r}: label={ln} hint={hn} guidance={gn}"
+            q = _mk(ctx, qcls, nm, label=lv, media=None, hint=hv, guidance_hint=gv, type="text", bind={"type": "string"}, control={"tag": "input"})
+            xp = {nm: f"/data/{nm}", "data": "/data"}
+            s = survey_obj([q])
+            it = ctx.interp("C07.R2", hooks=_hooks(xp))
+            it.reset([])
+            try:
+                nodes = it.call_function(repo.cls("pyxform.survey_element:SurveyElement").methods["xml_label_and_hint"], [q], {"survey": s}, None, None)
+            except Raised as r:
+                continue
+            em = _emitted(nodes)
+            ids, tr = registered(s, xp)
+            r2.check(em <= ids, f"display[{desc}]", "every itext id emitted is registered", "pyxform/survey_element.py", why_fail=f"emitted {sorted(em)} registered {sorted(ids)}")
     rules.append(r2)
 
     # ------------------------------------------------------------------ R2b (messages)
@@ -347,6 +365,17 @@ def run(ctx):
              "itextId of every item equals a registered text id (<list>-<index>, same enumeration)", scls.methods["_generate_static_instances"].loc(),
              why_fail=f"items {item_ids} registered {sorted(ids)}")
     r1.check(isinstance(inst, NodeVal) and inst.attrs.get("id") == "lst", "choice instance id", "the secondary instance id is the list name", scls.methods["_generate_static_instances"].loc())
+    # a translated list with a choice that has no label (allowed, with a warning): its itextId must still resolve
+    opts_u = (_mk(ctx, ocls, "o0", label={"en": "L0", "fr": "L0f"}, media=None), _mk(ctx, ocls, "o1", label=None, media=None))
+    itemset_u = Obj(icls, {"name": "lu", "options": opts_u, "requires_itext": True, "used_by_search": False}, name="itemset_u")
+    so_u = survey_obj([], choices={"lu": itemset_u})
+    it.reset([])
+    info_u = it.call_function(scls.methods["_generate_static_instances"], [so_u], {"list_name": "lu", "itemset": itemset_u}, None, None)
+    inst_u = info_u.get("instance") if isinstance(info_u, dict) else None
+    ids_items = [ch.text for item in inst_u.children[0].children for ch in item.children if isinstance(ch, NodeVal) and ch.tag == "itextId"] if isinstance(inst_u, NodeVal) and inst_u.children else []
+    ids_u, _tr_u = registered(so_u, {"data": "/data"})
+    r1.check(set(ids_items) <= ids_u, "choice ids:unlabeled choice in a translated list", "every itextId carried by an item names a registered text id, also for a choice without a label",
+             scls.methods["_setup_translations"].loc(), why_fail=f"items {ids_items} registered {sorted(ids_u)}")
     # search redirect
     mq = repo.cls("pyxform.question:MultipleChoiceQuestion")
     el = _mk(ctx, mq, "s1", control={"appearance": "search('x')"}, itemset="lst", choices=itemset, list_name="lst", type="select one")
